@@ -159,7 +159,9 @@ def c06_jobs(tier):
 
 def c10_jobs(tier):
     jobs = [sim("c10-wgl", "c10", require_counters=["overlapping_operation_pairs", "names_checked", "overlapping_double_delete_ok"]),
-            sim("c10-seq-status", "c11", require_nontrivial=False)]
+            sim("c10-seq-status", "c11", require_nontrivial=False),
+            # check-then-act on the name maps needs real threads: stable build, 4-worker runtime, real clock
+            sim("c10-wgl-mt", "c10", engine_arg="mt", shards=8, require_counters=["episodes_with_barrier_racers"], require_nontrivial=False)]
     if tier == "thorough":
         jobs.append(sim("c10-wgl-h2", "c10", transport="h2"))
         jobs.append(asan_mt("c10-asan-mt", "c10", crash_property="C10"))
